@@ -118,8 +118,8 @@ QuiesceChecks(e) ==
 \* the ledger must add up to the counters read at the end: otherwise the harness lost events
 QuiesceDrift(e) ==
   LET a == Ledger(e.led, 1, Ledger0) o == e.cnt IN
-  IF a.bal["Gc"] = o.gc /\ a.bal["Gs"] = o.gs /\ a.bal["Sc"] = o.sc /\ a.bal["Ss"] = o.ss
-     /\ a.bal["Ac"] = o.ac /\ a.bal["As"] = o.as /\ a.bal["Fc"] = o.fc /\ a.bal["Fs"] = o.fs
+  IF e.clamped \/ (a.bal["Gc"] = o.gc /\ a.bal["Gs"] = o.gs /\ a.bal["Sc"] = o.sc /\ a.bal["Ss"] = o.ss
+                    /\ a.bal["Ac"] = o.ac /\ a.bal["As"] = o.as /\ a.bal["Fc"] = o.fc /\ a.bal["Fs"] = o.fs)
     THEN {} ELSE {<<sid, e.n, "ledger-vs-counters">>}
 
 TrQuiesce ==
